@@ -169,7 +169,9 @@ def docutils_tables() -> dict:
     need(len(rst_ws) < 16 and rws.fullmatch('ab') is None, 'string2lines whitespace class')
     breaks = [c for c in range(0x110000) if c not in range(0xD800, 0xE000) and len(('a' + chr(c) + 'b').splitlines()) == 2]
     need(('a\r\nb').splitlines() == ['a', 'b'], 'splitlines CRLF')
-    return {'special': sorted(sc.items()), 'attval_ws': ws, 'rst_ws': rst_ws, 'breaks': breaks}
+    space = [c for c in range(0x110000) if chr(c).isspace()]
+    need('a\x1fb \u2003c'.split() == ['a', 'b', 'c'] and ' \x0ca\u3000'.strip() == 'a', 'str.split/strip whitespace')
+    return {'special': sorted(sc.items()), 'attval_ws': ws, 'rst_ws': rst_ws, 'breaks': breaks, 'space': space}
 
 
 def stanutils_tables() -> dict:
@@ -371,6 +373,8 @@ def generate() -> dict:
     L.append('Definition rst_ws : list N := %s.' % coq_text(bytes(du['rst_ws'])))
     L.append('(* code points at which str.splitlines breaks a line *)')
     L.append('Definition line_breaks : list N := [%s].' % '; '.join(str(c) for c in du['breaks']))
+    L.append('(* str.isspace(): the separators of str.split() and what str.strip() removes *)')
+    L.append('Definition py_space : list N := [%s].' % '; '.join(str(c) for c in du['space']))
     L.append('(* stanutils._RE_CONTROL members and what html2stan substitutes for each *)')
     L.append('Definition re_control : list N := %s.' % coq_text(bytes(su['ctrl'])))
     L.append('Definition re_control_repl : list (N * list N) :=\n  %s.' % coq_pairs(su['ctrl_repl']))
